@@ -12,7 +12,7 @@
    error sets; it is not proved for all documents. *)
 From Coq Require Import ZArith List String Bool.
 From TV Require Import Py.Prelude Model.Schema Model.ImplInput Model.ImplExec Model.Envelope
-     Model.ImplValidate Model.SpecValidate Model.RunValidate Proofs.ValidateProofs Proofs.ValidateRules Proofs.ValidateValues Proofs.ValidateSites Proofs.ValidateWalk Proofs.ValidateTree
+     Model.ImplValidate Model.SpecValidate Model.RunValidate Proofs.ValidateProofs Proofs.ValidateRules Proofs.ValidateValues Proofs.ValidateSites Proofs.ValidateWalk Proofs.ValidateTree Proofs.SingleRoot
      Gen.Wiring_gen Proofs.Wiring.
 Import ListNotations.
 Open Scope string_scope.
@@ -154,6 +154,25 @@ Proof.
   destruct H as [H|[H|[H|[H|[H|[H|H]]]]]]; try congruence; now apply H.
 Qed.
 
+(* 5.2.3.1 single root field: a subscription reaching two different response keys at the root through fields
+   and inline fragments (at any nesting) is reported by the rule, and the document is not accepted *)
+Theorem C07_two_root_keys_reported doc o :
+  In o (operations doc) -> o_kind o = OpSubscription -> two_root_keys (o_sels o) -> single_root_rule doc <> Some [].
+Proof. exact (single_root_rule_refuses doc o). Qed.
+
+Theorem C07_two_root_keys_refused V doc o :
+  In o (operations doc) -> o_kind o = OpSubscription -> two_root_keys (o_sels o) -> accepted V doc = false.
+Proof.
+  intros Hin Hk Htwo. destruct (accepted V doc) eqn:E; [|reflexivity]. exfalso.
+  apply accepted_iff_clean, validate_clean_iff in E. destruct E as (_ & _ & _ & _ & Hq & _).
+  exact (single_root_rule_refuses doc o Hin Hk Htwo Hq).
+Qed.
+
+Example C07_two_root_keys_example :
+  two_root_keys [SField (1,1)%Z (Some "ka") "su" [] [] [];
+                 SInline (1,2)%Z (Some "Subscription") [] [SInline (1,3)%Z None [] [SField (1,4)%Z None "kb" [] [] []]]].
+Proof. exists "ka", "kb". repeat split; [discriminate|cbn; auto|cbn; auto]. Qed.
+
 Print Assumptions C07_source_invokes_every_supported_rule.
 Print Assumptions C07_cycle_rule_exact.
 Print Assumptions C07_fragment_cycle_refuses.
@@ -175,3 +194,5 @@ Print Assumptions C07_missing_required_argument_reported.
 Print Assumptions C07_misplaced_directive_reported.
 Print Assumptions C07_any_flagged_rule_refuses.
 Print Assumptions C07_violating_document_refused.
+Print Assumptions C07_two_root_keys_reported.
+Print Assumptions C07_two_root_keys_refused.
